@@ -210,6 +210,12 @@ def generated() -> dict[str, bytes]:
     g["gen/latin1.txt"] = "caf\xe9 na\xefve\n".encode("latin-1")
     g["gen/utf16.txt"] = "utf sixteen text\n".encode("utf-16")
     g["gen/a.csv"] = b"a,b,c\n1,2,3\n4,5,6\n"
+    # text files whose extension the router does not know: unsupported in any process, whatever was extracted before
+    g["gen/server.log"] = b"2024-01-02 03:04:05 INFO started\n"
+    g["gen/settings.ini"] = b"[main]\nkey = value\n"
+    g["gen/app.conf"] = b"listen 80;\n"
+    g["gen/tool.cfg"] = b"[tool]\nname = x\n"
+    g["gen/data.yaml"] = b"a: 1\nb: [2, 3]\n"
     g["gen/a.tsv"] = b"a\tb\n1\t2\n"
     g["gen/a.json"] = b'{"k": [1, 2, {"x": "y"}], "t": "text"}'
     g["gen/a.md"] = b"# Title\n\nSome *markdown* text.\n"
